@@ -116,6 +116,11 @@ theorem parseValue_inv (P : Nat → Prop)
     split at h
     · simp only at h
       split at h
+      · obtain ⟨s2, h2, h3⟩ := Res.bind_eq_ok h
+        injection h3 with h3; subst h3
+        have := ih d _ s2 hP (by simpa using hI) h2
+        split <;> simpa using this
+      split at h
       · injection h with h; subst h; simpa using hI
       · split at h
         · injection h with h; subst h
